@@ -229,6 +229,14 @@ def gen_history(seed, tier, prop, kinds_allowed):
             scn['mia'] = {'lo': -2, 'hi': 2, 'bins': r.choice([4, 7])}
         scn['mia_precision'] = r.choice([None, None, 'float64'])
     scn['m'] = m
+    # storage dtype of the intermediate values (selection functions / models return various integer widths; CPA also takes floats)
+    dd = rng.stream(seed, 'ddtype')
+    pmax, pmin = max(scn['pool']), min(scn['pool'])
+    if kind in ('cpa', 'cpaalt'):
+        scn['ddtype'] = dd.choice([None, None, 'uint16', 'int32', 'int64', 'float32', 'float64'])
+    elif kind in kinds.CLASS_BASED or kind in ('tstatic', 'tdpa'):
+        opts = [None, None, None, 'uint16', 'uint32', 'int16', 'int32'] + (['int8'] if pmax <= 127 else [])
+        scn['ddtype'] = dd.choice(opts)
     # keep the exact regime exact: lower amplitude / rows until the bound holds
     batches, shape = _partition(r, n)
     scn['ops'] = [['u', a, b] for a, b in batches]
